@@ -65,12 +65,20 @@ fn main() {
                 f
             }
             "acc" => {
+                let mut events: Vec<Value> = Vec::new();
                 let o = match elem.as_str() {
-                    "elem" => tdverif::acc::run_case::<Elem>(&case),
-                    "u32" => tdverif::acc::run_case::<K32>(&case),
-                    "zst" => tdverif::acc::run_case::<Zst>(&case),
+                    "elem" => tdverif::acc::run_case::<Elem>(&case, &mut events),
+                    "u32" => tdverif::acc::run_case::<K32>(&case, &mut events),
+                    "zst" => tdverif::acc::run_case::<Zst>(&case, &mut events),
                     e => panic!("unknown elem {e}"),
                 };
+                if let Some(lf) = logfile.as_mut() {
+                    for mut e in events {
+                        e["case"] = serde_json::json!(ln);
+                        writeln!(lf, "{}", e).unwrap();
+                    }
+                    lf.flush().unwrap();
+                }
                 match o {
                     tdverif::acc::Outcome::Skipped => {
                         skipped += 1;
@@ -79,12 +87,23 @@ fn main() {
                     tdverif::acc::Outcome::Done(f) => f,
                 }
             }
-            "iter" => match elem.as_str() {
-                "elem" => tdverif::iter::run_case::<Elem>(&case),
-                "u32" => tdverif::iter::run_case::<K32>(&case),
-                "zst" => tdverif::iter::run_case::<Zst>(&case),
-                e => panic!("unknown elem {e}"),
-            },
+            "iter" => {
+                let mut events: Vec<Value> = Vec::new();
+                let f = match elem.as_str() {
+                    "elem" => tdverif::iter::run_case::<Elem>(&case, &mut events),
+                    "u32" => tdverif::iter::run_case::<K32>(&case, &mut events),
+                    "zst" => tdverif::iter::run_case::<Zst>(&case, &mut events),
+                    e => panic!("unknown elem {e}"),
+                };
+                if let Some(lf) = logfile.as_mut() {
+                    for mut e in events {
+                        e["case"] = serde_json::json!(ln);
+                        writeln!(lf, "{}", e).unwrap();
+                    }
+                    lf.flush().unwrap();
+                }
+                f
+            }
             "serde" => tdverif::serdefam::run_case(&case),
             "ctor" => match elem.as_str() {
                 "elem" => tdverif::ctor::run_case::<Elem>(&case),
